@@ -394,13 +394,15 @@ fn presig(loader: Loader, f: &Finding) -> String {
     format!("{}|{}|{}", loader.name(), f.kind, f.sub)
 }
 
-fn signature(loader: Loader, f: &Finding, t: &TensorSpec, monitor: &str) -> String {
+fn signature(loader: Loader, f: &Finding, t: &TensorSpec, monitor: &str, earlier: &[TensorSpec]) -> String {
+    // tensors loaded before the failing one (shrinking removes them when they do not matter)
+    let after = if earlier.is_empty() { String::new() } else { format!("|after={}", earlier.iter().map(loc_sig).collect::<Vec<_>>().join(",")) };
     if monitor == "syscall" {
         // what was opened depends on the location only
         return format!("C21|{}|{}|syscall|loc={}", loader.name(), f.kind, loc_sig(t));
     }
     format!(
-        "C21|{}|{}:{}|{}|loc={}|offset={}|length={}|dtype={}",
+        "C21|{}|{}:{}|{}|loc={}|offset={}|length={}|dtype={}{}",
         loader.name(),
         f.kind,
         f.sub,
@@ -408,7 +410,8 @@ fn signature(loader: Loader, f: &Finding, t: &TensorSpec, monitor: &str) -> Stri
         loc_sig(t),
         fmt_opt(&t.offset),
         fmt_opt(&t.length),
-        dtype_name(t.dtype)
+        dtype_name(t.dtype),
+        after
     )
 }
 
@@ -438,6 +441,19 @@ fn shrink(ctx: &mut Ctx, case: &Case, loader: Loader, f: &Finding) -> (Case, Fin
         let mut c = best.clone();
         c.tensors = vec![best.tensors[best_f.tensor].clone()];
         attempt(ctx, c, &mut best, &mut best_f, &mut budget);
+    }
+    // still several tensors: the failure may depend on an earlier tensor (e.g. a file the loader
+    // already has open). Try canonical pairs: a plain load of w.data followed by one candidate.
+    if best.tensors.len() > 1 {
+        let plain = |loc: &[u8]| TensorSpec { dtype: UINT8, dims: vec![0], location: Some(loc.to_vec()), offset: Some("0".into()), length: Some("0".into()), extra: vec![] };
+        let pair_cands: [&[u8]; 8] = [b"w.data/", b"w.data/.", b"./w.data", b"sub/../w.data", b"W.DATA", b"w.data\0", b"sub/x.data", b"../secret.data"];
+        for cand in pair_cands {
+            let mut c = best.clone();
+            c.tensors = vec![plain(b"w.data"), plain(cand)];
+            if attempt(ctx, c, &mut best, &mut best_f, &mut budget) {
+                break;
+            }
+        }
     }
     // canonical options
     for (mp, opt) in [("abs", false)] {
@@ -655,7 +671,7 @@ fn result_monitor(ctx: &mut Ctx, items: &[(Case, Loader)]) {
             *n += 1;
             let (small, sf) = shrink(ctx, case, loader, &f);
             let ti = sf.tensor.min(small.tensors.len() - 1);
-            let sig = signature(loader, &sf, &small.tensors[ti], "result");
+            let sig = signature(loader, &sf, &small.tensors[ti], "result", &small.tensors[..ti]);
             ctx.rep.violation(sig, sf.detail.clone(), witness(&small, loader, "result", &sf.detail));
         }
     }
@@ -796,7 +812,7 @@ fn syscall_monitor_once(ctx: &mut Ctx, items: &[(Case, Loader)], tag: &str) -> u
                     }
                     let t = small.tensors[0].clone();
                     let f = Finding { kind: "opened-outside", sub: String::new(), tensor: 0, detail: why.clone() };
-                    let sig = signature(*loader, &f, &t, "syscall");
+                    let sig = signature(*loader, &f, &t, "syscall", &[]);
                     let detail = format!("while loading with the {} loader the process {} ({}) = fd {}", loader.name(), why, ev.flags, ev.ret);
                     ctx.rep.violation(sig, detail.clone(), witness(&small, *loader, "syscall", &detail));
                 }
@@ -919,7 +935,9 @@ pub fn run(args: &mut Args) {
 
     // ---------------------------------------------------------------- replay
     if let Some(r) = &replay_abs {
-        for (case, loaders, monitor) in load_witnesses(r) {
+        // the driver hands the witness to every shard: one of them is enough
+        let witnesses = if args.shard == 0 { load_witnesses(r) } else { Vec::new() };
+        for (case, loaders, monitor) in witnesses {
             note_classes(&mut ctx, &case);
             let items: Vec<(Case, Loader)> = loaders.iter().map(|l| (case.clone(), *l)).collect();
             if monitor != "syscall" {
@@ -961,7 +979,7 @@ pub fn run(args: &mut Args) {
         }
     }
     let fixed: Vec<Case> = cgen::fixed_cases(&tree).into_iter().filter(|_| do_fixed).enumerate().filter(|(i, _)| i % args.shards == args.shard).map(|(_, c)| c).collect();
-    let n_random = args.budget(1600, 150000);
+    let n_random = args.budget(1600, 100000);
     let mut rng = Rng::derive(args.seed, 0xC21_0000 + args.shard as u64);
     let mut queue: Vec<(Case, Loader)> = Vec::new();
     let mut batch_no = 0usize;
